@@ -18,8 +18,8 @@ def run(ctx):
     results, caught = R.model_and_sensitivity(ctx, "C08", cfgs)
     summ, mism, lkmism, tot = R.replay(ctx, results)
     foreign = R.report_replay(ctx, "C08", mism, lkmism)
-    ntr, nops = (40, 250) if ctx.quick() else (400, 1000)
-    tsum, v = R.traces(ctx, "C08", ["cidr"], ntr, nops, "c08trace")
+    ntr, nops, chunks = (40, 250) + (1,) if ctx.quick() else (20, 1000) + (8,)
+    tsum, v = R.traces(ctx, "C08", ["cidr"], ntr, nops, "c08trace", chunks)
     foreign += R.report_trace(ctx, "C08", v)
     ctx.evidence("model_checking",
                  assumptions=["stored networks are canonical IPv4 / non-mapped IPv6 prefixes (as net.ParseCIDR and the "
@@ -29,12 +29,12 @@ def run(ctx):
                               "address bits per walk; traces use 3 symbols, 9 prefixes, 7 origins",
                               "single-threaded histories (the tables serialise all operations under one lock)"],
                  states=sum(r.distinct for r in results.values()), transitions=tot["edges"],
-                 traces_validated_against_impl=sum(s["walks"] for s in summ.values()) + (tsum["traces"] if v["accepted"] else 0),
+                 traces_validated_against_impl=sum(s["walks"] for s in summ.values()) + tsum["validated_traces"],
                  exhaustive=True, cfgs={n: {"states": r.distinct, "transitions": r.generated - 1} for n, r in results.items()},
                  replay={n: {k: s[k] for k in ("groups", "uncovered", "edges", "edges_exhibited", "steps", "walks",
                                                 "mismatches", "lkmismatches", "lookups")} for n, s in summ.items()},
                  lookups_checked_in_replay=sum(s["lookups"] for s in summ.values()),
-                 trace_events=tsum["events"], trace_highwater=v["hw"], trace_event_counts=tsum["counts"],
+                 trace_events=tsum["events"], trace_events_matched=tsum["highwater_total"], trace_event_counts=tsum["counts"],
                  trace_lookup_hits=tsum["lookup_hits"], trace_lookup_misses=tsum["lookup_misses"],
                  trace_lookup_multi_candidate=tsum["lookup_multi_candidate"],
                  deviations_caught=caught, findings_of_sibling_properties_seen=foreign,
